@@ -849,6 +849,11 @@ class Run:
                 return Obj('tuple', {str(i): o for i, o in enumerate(ops)})
             if r['kind'] == 'closure':
                 return Obj('closure', {str(i): o for i, o in enumerate(ops)}, r.get('id') or r.get('def'))
+            if r['kind'] == 'array':
+                return Obj('array', {str(i): o for i, o in enumerate(ops)})
+            # any other aggregate is not modelled: what its reference operands point to is out of sight from now on
+            for o in ops:
+                self.havoc(o)
             return TOP
         return TOP
 
@@ -945,8 +950,7 @@ class Run:
         # unknown callee: result unknown, everything reachable through a reference argument forgotten
         self.unknown_calls.add(d)
         for x in args:
-            if isinstance(x, Ref):
-                x.box[x.key] = TOP
+            self.havoc(x)
         return TOP
 
     def apply_fn(self, fn, fargs, depth):
@@ -992,6 +996,22 @@ class Run:
         if name in ('max_by', 'min_by', 'last', 'next', 'nth', 'max', 'min', 'reduce', 'find'):
             return TOP
         return TOP
+
+    def havoc(self, x, depth=0):
+        """forget everything reachable through a reference (an unknown callee may have written it)"""
+        if depth > 6:
+            return
+        if isinstance(x, Ref):
+            tgt = x.get()
+            if isinstance(tgt, Obj):
+                for v in list(tgt.f.values()):
+                    if isinstance(v, (Ref, Obj)):
+                        self.havoc(v, depth + 1)
+            x.box[x.key] = TOP
+        elif isinstance(x, Obj):
+            for v in list(x.f.values()):
+                if isinstance(v, (Ref, Obj)):
+                    self.havoc(v, depth + 1)
 
     def window_call(self, name, args, a):
         if name == 'new' and len(a) == 2:
